@@ -145,6 +145,8 @@ impl Prop for SeqExact {
             (Tier::Thorough, _) if self.is_prefetch() => 40_000,
             (Tier::Quick, "fast") => 30_000,
             (Tier::Quick, "noprefetch") => 6_000,
+            (Tier::Quick, "native") => 4_000,
+            (Tier::Thorough, "native") => 20_000,
             (Tier::Quick, "asan") => 2_000,
             (Tier::Quick, _) => 15_000,
             (Tier::Thorough, "fast") => 240_000,
@@ -160,7 +162,8 @@ impl Prop for SeqExact {
             // the crate feature `prefetch` must not matter for any answer: a smaller run without it;
             // `asan`: generated cases under AddressSanitizer (reads outside an allocation that
             // happen to give the right answer)
-            vec!["fast", "checked", "noprefetch", "asan"]
+            // `native`: compiled with `-C target-cpu=native`
+            vec!["fast", "checked", "noprefetch", "asan", "native"]
         }
     }
     fn fixed_in_asan(&self) -> bool { self.is_prefetch() }
